@@ -106,7 +106,17 @@ pub mod fallback {
     /// Returns the largest integer less than or equal to `x`.
     #[inline]
     pub fn floor(x: f32) -> f32 {
-        (x as i64 - x.is_sign_negative() as i64) as f32
+        // Values this large are all integers (or not finite)
+        if !(abs(x) < 8388608.0) {
+            return x;
+        }
+        // Truncate toward zero, then adjust if that rounded up
+        let t = x as i32 as f32;
+        if t > x {
+            t - 1.0
+        } else {
+            t
+        }
     }
     // Returns the least non-negative remainder of `x` (mod `m`).
     #[inline]
